@@ -820,7 +820,7 @@ Definition call_function (f : value) (args : list expr) (vararg go : bool) (s : 
     else if (negb fvar && negb vararg && negb (Nat.eqb num_in num_exprs))
          || (fvar && vararg && ((num_in <? num_exprs) || (S num_exprs <? num_in)))
          || (fvar && negb vararg && (S num_exprs <? num_in))
-         || (negb fvar && vararg && (num_in <? num_exprs))
+         || (negb fvar && vararg && ((num_in <? num_exprs) || (num_exprs <? 1)))
     then arity_error num_in num_exprs s
     else
       (* leading arguments: for indexInReal < numInReal-1 && indexExpr < numExprs-1 *)
@@ -918,6 +918,9 @@ Fixpoint define_all (st : store) (e : nat) (names : list string) (rvs : list rva
 
 (* runVarStmt *)
 Definition run_var (names : list string) (es : list expr) (s : rstate) : outcome :=
+  match names, es with
+  | [], _ | _, [] => raise "invalid operation" s
+  | _, _ =>
   eval_rhs es s [] (fun rvs s1 =>
     let st := r_st s1 in
     let spread :=
@@ -935,10 +938,11 @@ Definition run_var (names : list string) (es : list expr) (s : rstate) : outcome
         Ok (set_rv (set_st s1 (define_all st (r_env s1) names places)) (Place l (off + n - 1)))
     | None =>
         match rev rvs with
-        | [] => Abort (APanic "index out of range [-1]: var statement without right-hand side")
+        | [] => Abort (APanic "unreachable: empty right-hand side")
         | last :: _ => Ok (set_rv (set_st s1 (define_all st (r_env s1) names rvs)) last)
         end
-    end).
+    end)
+  end.
 
 Fixpoint let_all (ls : list expr) (rvs : list rval) (s : rstate) (unwrap_each : bool) : outcome :=
   match ls, rvs with
